@@ -88,6 +88,73 @@ def run_allowed(rep, rng, budget):
     return rows, found
 
 
+def run_two_codenames(rep, rng, n):
+    """One repository with two differently configured codenames whose Release files list the same names:
+    what is selected for a codename must be what a repository with that codename alone selects."""
+    from apt_mirror.download import URL
+    from apt_mirror.repository import ByHash, Codename, Repository
+    found = False
+    sb = S.sandbox("vsb_sel2_")
+    try:
+        for i in range(n):
+            arches = ["amd64", "i386", "arm64"]
+            comps = ["main", "contrib", "non-free"]
+            cfgs, pols = {}, {}
+            for cn in ("alpha", "beta"):
+                cs = rng.sample(comps, rng.randint(1, 3))
+                cfgs[cn] = {c: (rng.random() < 0.5, rng.sample(arches, rng.randint(0, 2))) for c in cs}
+                pols[cn] = rng.choice(["yes", "no", "force"])
+            names = []
+            for c in comps:
+                for k in rng.sample(S.kinds_for(arches), 5):
+                    names.append(c + "/" + S.render_kind(k) + rng.choice(["", ".xz", ".gz"]))
+            rf = S.gen_release(rng, rng.sample(names, min(len(names), rng.randint(4, 12))))
+
+            def mk(cns):
+                return Repository(
+                    url=URL.from_string("http://h/repo"), clean=False, skip_clean=set(), http2_disable=False,
+                    mirror_dist_upgrader=False, mirror_path=None, ignore_errors=set(),
+                    codenames=Repository.Codenames([(cn, Codename(
+                        ByHash(pols[cn]), cn,
+                        {n_: Codename.Component(n_, s_, list(ar)) for n_, (s_, ar) in cfgs[cn].items()})) for cn in cns]))
+
+            def selection(repo, base):
+                root = base / repo.get_mirror_path(False)
+                for md, rels in repo.release_files_per_metadata.items():
+                    for rel in rels:
+                        if rel.name == "InRelease":
+                            pth = root / rel
+                            pth.parent.mkdir(parents=True, exist_ok=True)
+                            pth.write_text(S.render_release(rf))
+                out = {}
+                for f in repo.get_metadata_files(base, False, set()):
+                    for v in f.iter_variants():
+                        parts = v.path.parts
+                        cn = parts[1] if len(parts) > 1 and parts[0] == "dists" else "?"
+                        out.setdefault(cn, set()).add((str(v.path), v.size, tuple(str(p_) for p_ in v.get_all_paths())))
+                return out
+            order = rng.choice([("alpha", "beta"), ("beta", "alpha")])
+            both = selection(mk(order), sb / f"b{i}")
+            case = {"cfgs": {cn: {c: [v[0], v[1]] for c, v in cfgs[cn].items()} for cn in cfgs}, "policies": pols,
+                    "order": list(order), "release": rf}
+            rep.case(("two_codenames", len(both.get("alpha", ())), len(both.get("beta", ())), tuple(pols.values())),
+                     sample={"alpha": len(both.get("alpha", ())), "beta": len(both.get("beta", ()))})
+            rep.count("two_codenames")
+            for cn in ("alpha", "beta"):
+                alone = selection(mk((cn,)), sb / f"a{i}{cn}")
+                if both.get(cn, set()) != alone.get(cn, set()):
+                    found = True
+                    d1 = sorted(x[0] for x in both.get(cn, set()) - alone.get(cn, set()))[:3]
+                    d2 = sorted(x[0] for x in alone.get(cn, set()) - both.get(cn, set()))[:3]
+                    rep.violation(f"codename {cn}: selection depends on the other codename of the repository "
+                                  f"(only with both: {d1}; only alone: {d2}; configs {case['cfgs']})",
+                                  {"kind": "oracle", "tie": "two_codenames", "case": case}, tags={"oracle": "codename_independent"})
+            shutil.rmtree(sb / f"b{i}", ignore_errors=True)
+    finally:
+        shutil.rmtree(sb, ignore_errors=True)
+    return found
+
+
 def run_select(rep, rng, n, focus_byhash=False):
     """real get_metadata_files on rendered Release files vs model select"""
     found = False
@@ -202,7 +269,8 @@ def run(rep: C.Report):
                                          [(a, b) for _, a, b in rows2], shard=60)
     C.tie_verdict(rep, "select", mism, errors, [c for c, _, _ in rows2], found or found2, header=header,
                   fn="m_select", coq_inputs=[a for _, a, _ in rows2])
-    C.proof_verdict(rep, found or found2)
+    found3 = run_two_codenames(rep, random.Random(rep.seed + 1010), 60 if rep.tier == "quick" else 3000)
+    C.proof_verdict(rep, found or found2 or found3)
 
 
 def replay(rep: C.Report, path: str):
